@@ -32,7 +32,7 @@ class SimFault(Exception):
     """Marker mix-in: exceptions injected by the simulator carry .injected = True"""
 
 
-class HarnessCap(Exception):
+class HarnessCap(BaseException):       # BaseException: the library's blanket 'except Exception' must not swallow it
     pass
 
 
@@ -245,10 +245,12 @@ class PeerPolicy:
                 return None
             model = [None] + [bool(sol[v]) if v < len(sol) else False for v in range(1, n + 1)]
             return model
-        s = _real_pycryptosat.Solver()
+        s = _real_pycryptosat.Solver(confl_limit=300000)     # deterministic bound: a C-level search cannot be interrupted
         for c in clauses:
             s.add_clause(c)
         sat, sol = s.solve()
+        if sat is None:
+            raise HarnessCap("solver conflict limit")
         if not sat:
             return None
         sol = list(sol) + [False] * (n + 1 - len(sol))
@@ -257,6 +259,8 @@ class PeerPolicy:
         order = list(range(1, n + 1))
         if pol == "walk":
             self.rng.shuffle(order)
+        if n > 400:
+            order = order[:400]      # bound the cost on big formulas; the remaining variables keep the solver's values
         assumptions = []
         cur = sol
         for v in order:
@@ -270,6 +274,8 @@ class PeerPolicy:
                 assumptions.append(v if want else -v)
                 continue
             sat2, sol2 = s.solve(assumptions + [v if want else -v])
+            if sat2 is None:
+                raise HarnessCap("solver conflict limit")
             if sat2:
                 cur = list(sol2) + [False] * (n + 1 - len(sol2))
                 assumptions.append(v if want else -v)
